@@ -609,8 +609,10 @@ impl File {
             roots.push(ast::Root::Face(face.into()))
         }
         for (i, &u) in self.header.additional_data.iter().enumerate() {
-            let i: u8 = i.try_into().unwrap();
-            let i = i.checked_add(18).unwrap(); // TODO: gotta be a warning here
+            // HEADER D n only reaches n = 255; later header words cannot be expressed.
+            let Some(i) = u8::try_from(i).ok().and_then(|i| i.checked_add(18)) else {
+                break;
+            };
             roots.push(ast::Root::Header((ast::DecimalU8(i), u).into()))
         }
         #[derive(Clone, Copy)]
